@@ -6,9 +6,11 @@ package main
 // and Coq printing.
 
 import (
+	"encoding/binary"
 	"encoding/hex"
 	"fmt"
 	"math/big"
+	"strconv"
 	"strings"
 
 	sdkmath "cosmossdk.io/math"
@@ -274,17 +276,38 @@ func keccak(b ...[]byte) []byte { return crypto.Keccak256(b...) }
 
 // ---------------------------------------------------------------- Coq printing
 
-func zAddr(a Addr) string { return new(big.Int).SetBytes(a[:]).String() }
+// Large data is printed as lists of primitive-integer limbs (see coq/model/M_ConfirmCorr.v zl / bl):
+// type-checking a 256-bit numeral costs coqc milliseconds, a 52-bit primitive literal microseconds.
 
-func words(b []byte) string {
-	if len(b)%32 != 0 {
-		b = append(append([]byte{}, b...), make([]byte, 32-len(b)%32)...)
+var limbMask = new(big.Int).Sub(new(big.Int).Lsh(big.NewInt(1), 52), big.NewInt(1))
+
+// zbig: a non-negative number; small ones as a plain numeral, big ones as (zl [little-endian 52-bit limbs])
+func zbig(n *big.Int) string {
+	if n.BitLen() <= 60 {
+		return n.String()
 	}
-	s := make([]string, 0, len(b)/32)
-	for i := 0; i < len(b); i += 32 {
-		s = append(s, new(big.Int).SetBytes(b[i:i+32]).String())
+	var limbs []string
+	v := new(big.Int).Set(n)
+	for v.Sign() > 0 {
+		limbs = append(limbs, new(big.Int).And(v, limbMask).String())
+		v.Rsh(v, 52)
 	}
-	return lib.List(s)
+	return "(zl " + lib.List(limbs) + "%uint63)"
+}
+
+func zu(x uint64) string { return zbig(new(big.Int).SetUint64(x)) }
+
+func zAddr(a Addr) string { return zbig(new(big.Int).SetBytes(a[:])) }
+
+// bytesL: a byte string as (bl len [big-endian 7-byte limbs])
+func bytesL(b []byte) string {
+	var limbs []string
+	for i := 0; i < len(b); i += 7 {
+		var chunk [8]byte
+		copy(chunk[1:], b[i:min(i+7, len(b))])
+		limbs = append(limbs, strconv.FormatUint(binary.BigEndian.Uint64(chunk[:]), 10))
+	}
+	return fmt.Sprintf("(bl %d %s%%uint63)", len(b), lib.List(limbs))
 }
 
 func (o *Obj) Coq() string {
@@ -292,22 +315,22 @@ func (o *Obj) Coq() string {
 	case KSet:
 		ms := make([]string, len(o.Members))
 		for i, m := range o.Members {
-			ms[i] = lib.Pair(zAddr(m.Addr), lib.ZU(m.Power))
+			ms[i] = lib.Pair(zAddr(m.Addr), zu(m.Power))
 		}
-		return fmt.Sprintf("(mk_set %s %s)", lib.ZU(o.Nonce), lib.List(ms))
+		return fmt.Sprintf("(mk_set %s %s)", zu(o.Nonce), lib.List(ms))
 	case KBatch:
 		ts := make([]string, len(o.Txs))
 		for i, t := range o.Txs {
-			ts[i] = fmt.Sprintf("(%s, %s, %s)", t.Amount.String(), zAddr(t.Dest), t.Fee.String())
+			ts[i] = fmt.Sprintf("(%s, %s, %s)", zbig(t.Amount), zAddr(t.Dest), zbig(t.Fee))
 		}
-		return fmt.Sprintf("(mk_batch %s %s %s %s %s)", lib.ZU(o.Nonce), lib.ZU(o.Timeout), lib.List(ts), zAddr(o.Token), zAddr(o.FeeRecv))
+		return fmt.Sprintf("(mk_batch %s %s %s %s %s)", zu(o.Nonce), zu(o.Timeout), lib.List(ts), zAddr(o.Token), zAddr(o.FeeRecv))
 	default:
 		ts := make([]string, len(o.Tokens))
 		for i, t := range o.Tokens {
-			ts[i] = lib.Pair(zAddr(t.Contract), t.Amount.String())
+			ts[i] = lib.Pair(zAddr(t.Contract), zbig(t.Amount))
 		}
-		return fmt.Sprintf("(mk_call %s %s %s %s %d %s %d %s %s %s %s)", zAddr(o.Sender), zAddr(o.Refund), lib.List(ts), zAddr(o.To),
-			len(o.Data), words(o.Data), len(o.Memo), words(o.Memo), lib.ZU(o.Nonce), lib.ZU(o.Timeout), lib.ZU(o.EventNonce))
+		return fmt.Sprintf("(mk_call %s %s %s %s %s %s %s %s %s)", zAddr(o.Sender), zAddr(o.Refund), lib.List(ts), zAddr(o.To),
+			bytesL(o.Data), bytesL(o.Memo), zu(o.Nonce), zu(o.Timeout), zu(o.EventNonce))
 	}
 }
 
